@@ -5,6 +5,7 @@
 import XonshVerif.Model.Peg
 import XonshVerif.Proofs.PegConsume
 import XonshVerif.Proofs.PegSpec
+import XonshVerif.Proofs.PegSpecDet
 import XonshVerif.Model.DriverPeg
 namespace XV.Peg
 variable (prog : Prog) (w : Array RTok)
@@ -262,6 +263,41 @@ def plainProg : Prog := #[
 example : plainB plainProg = true := by decide +kernel
 example : SRule plainProg consW 0 0 (some 3) :=
   (recogniser_sound_from_start plainProg consW (by decide +kernel) 40 0 false false).1 3 (by decide +kernel)
+
+/-- **peg_semantics_deterministic.**  The declarative semantics assigns every rule at every position at most one outcome. -/
+theorem peg_semantics_deterministic (prog : Prog) (w : Array RTok) (id p : Nat) (r1 r2 : Option Nat)
+    (h1 : SRule prog w id p r1) (h2 : SRule prog w id p r2) : r1 = r2 := SRule.det h1 h2
+
+/-- what an answer says, if it says anything: `some (some e)` match ending at `e`, `some none` failure, `none` out of fuel / raised -/
+def Res.verdict : Res → Option (Option Nat)
+  | .ok e => some (some e)
+  | .fail _ => some none
+  | _ => none
+
+/-- **answers_do_not_depend_on_cache_or_fuel.**  In the plain fragment, two runs of the same rule at the same position -
+    with ANY two amounts of fuel and ANY two sound memo caches (empty, or filled by whatever was parsed before) - that both
+    answer give the SAME answer: it is the unique outcome of the semantics.  So memoisation can change how long a parse
+    takes and nothing else. -/
+theorem answers_do_not_depend_on_cache_or_fuel (prog : Prog) (w : Array RTok) (hpl : plainB prog = true) (id fuel1 fuel2 : Nat) (s1 s2 : St)
+    (hc1 : CacheOK s1) (hs1 : CSound prog w s1) (hc2 : CacheOK s2) (hs2 : CSound prog w s2) (hpos : s1.pos = s2.pos)
+    (a b : Option Nat) (ha : (execRule prog w fuel1 id s1).1.verdict = some a) (hb : (execRule prog w fuel2 id s2).1.verdict = some b) :
+    a = b := by
+  have h1 := recogniser_sound_for_peg_semantics prog w hpl fuel1 id s1 hc1 hs1
+  have h2 := recogniser_sound_for_peg_semantics prog w hpl fuel2 id s2 hc2 hs2
+  rw [hpos] at h1
+  have d1 : SRule prog w id s2.pos a := by
+    generalize (execRule prog w fuel1 id s1).1 = r at ha h1
+    cases r with
+    | ok e => simp only [Res.verdict] at ha; injection ha with ha; subst ha; exact h1.1 e rfl
+    | fail m => simp only [Res.verdict] at ha; injection ha with ha; subst ha; exact h1.2.1 m rfl
+    | _ => simp [Res.verdict] at ha
+  have d2 : SRule prog w id s2.pos b := by
+    generalize (execRule prog w fuel2 id s2).1 = r at hb h2
+    cases r with
+    | ok e => simp only [Res.verdict] at hb; injection hb with hb; subst hb; exact h2.1 e rfl
+    | fail m => simp only [Res.verdict] at hb; injection hb with hb; subst hb; exact h2.2.1 m rfl
+    | _ => simp [Res.verdict] at hb
+  exact SRule.det d1 d2
 
 /-- the facts the driver command `progfacts` reports for every generated IR ARE the hypotheses of the two theorems above -/
 theorem driver_noFalsy_is_hypothesis (prog : Prog) : XV.Driver.progNoFalsy prog = noFalsyB prog := rfl
